@@ -201,7 +201,9 @@ func dischargeStage(obls []*Obligation, dir string, secs, workers int, use []str
 			switch r.status {
 			case "unsat":
 				o.Status = "discharged"
-				os.Remove(file)
+				if os.Getenv("GOVC_KEEP") == "" {
+					os.Remove(file)
+				}
 			case "sat":
 				o.Status = "failed"
 				o.Model = getModel(file, r.solver, secs)
